@@ -36,6 +36,7 @@ def nontrivial(path):
 def run(c, props=PROPS, profile=PROFILE, oracle=ORACLE, rule=RULE):
     pr = c.coq_props(props, extra_targets=["Extract/ExCodec.v"])
     ok = cc.build(c, drivers=("hist_run",))
+    disagree = None
     cov = {"rule": rule, "evaluations": 0, "distinct_nontrivial": 0, "samples": [], "disagreements_checked": 0}
     if ok:
         rc, out = c.harness([profile, c.work], timeout=1500)
@@ -58,8 +59,14 @@ def run(c, props=PROPS, profile=PROFILE, oracle=ORACLE, rule=RULE):
                              "history": cc.first_case_text(hist, sid.group(1)) if sid else None})
             if mism and not viol:
                 c.broken.append("correspondence model<->collectors: %d disagreements, first: %s" % (len(mism), mism[0][:600]))
+                sid = re.search(r"case=(\d+)", mism[0])
+                if sid:
+                    disagree = cc.first_case_text(hist, sid.group(1))
     if c.broken and not c.violations:
-        c.violation({"kind": "proof or correspondence no longer checks; no history violating the property was found", "broken": c.broken}, no_input=True)
+        rep = {"kind": "proof or correspondence no longer checks; no history violating the property was found", "broken": c.broken}
+        if disagree:
+            rep["history"] = disagree  # the history on which model and implementation differ (replayable)
+        c.violation(rep, no_input=True)
     if c.tier == "thorough" and pr["ok"]:
         okc, outc = c.coqchk(props)
         cov["coqchk"] = {"ok": okc, "tail": outc[-1200:]}
